@@ -416,6 +416,7 @@ def main():
     a.add_argument("--tier", default=None)
     a.add_argument("--seed", type=int, default=None)
     a.add_argument("--only", default=None)
+    sub.add_parser("selftest")
     r = sub.add_parser("replay")
     r.add_argument("file")
     r.add_argument("--reps", type=int, default=200)
@@ -432,6 +433,29 @@ def main():
             print(e, file=sys.stderr)
         print("built %d harness binaries in %.0fs" % (len(outs), time.time() - t0))
         return 2 if errs else 0
+    if args.cmd == "selftest":
+        # toy programs with a known bug and a correct twin: the engines must flag exactly the buggy ones
+        outs, errs = build_many([("selftest.cpp", "plain")])
+        if errs:
+            print(errs[0])
+            return 2
+        b = outs[("selftest.cpp", "plain")]
+        cases = [("lock_order", "serial", {}), ("lock_order", "stress", {}), ("lost_update", "serial", {}), ("lost_update", "stress", {}),
+                 ("lost_wakeup", "serial", {}), ("lost_wakeup", "stress", {}), ("dekker", "serial", {"stale": 1}), ("dekker", "stress", {"tso": 1})]
+        bad = 0
+        os.makedirs(os.path.join(REPLAYS, "selftest"), exist_ok=True)
+        for toy, eng, opt in cases:
+            for buggy in (0, 1):
+                run = {"variant": "plain", "engine": eng, "mode": toy, "x": {"buggy": buggy}}
+                run.update(opt)
+                r = run_proc(b, run, 0, 1, 3000, os.path.join(REPLAYS, "selftest"), "quick", 120)
+                flagged = r["rc"] == 1 or r["rc"] == 3
+                key = (r["res"] or {}).get("violations") or []
+                ok = (flagged == bool(buggy))
+                bad += not ok
+                print("%-12s %-7s %-8s buggy=%d -> %s %s %s" % (toy, eng, ",".join(opt) or "-", buggy, "flagged" if flagged else "silent ",
+                                                              (key[0]["key"] if key else ""), "OK" if ok else "SELFTEST-FAILURE"))
+        return 1 if bad else 0
     tier = getattr(args, "tier", None) or os.environ.get("VERIF_TIER") or "quick"
     seed = getattr(args, "seed", None)
     if seed is None:
